@@ -684,6 +684,16 @@ def scaling(res, work, tier):
             return 'class W { int ' + ',\n  '.join('f%d = %d' % (i, i) for i in range(n)) + ';\n}\n'
         if kind == 'statements':
             return 'class W { void m() {\n' + ''.join('  g%d(%d);\n' % (i % 7, i) for i in range(n)) + '} }\n'
+        if kind == 'assert-statements':
+            return 'class W { void m(int v) {\n' + ''.join('  assert v > %d : "m%d";\n' % (i, i) for i in range(n)) + '} }\n'
+        if kind == 'return-statements':
+            return 'class W { int m(int v) {\n' + ''.join('  return v + %d;\n' % i for i in range(n)) + '} }\n'
+        if kind == 'jump-statements':
+            return 'class W { void m(int v) { while (v > 0) {\n' + ''.join('  %s;\n' % ('break' if i % 2 else 'continue') for i in range(n)) + '} } }\n'
+        if kind == 'if-statements':
+            return 'class W { void m(int v) {\n' + ''.join('  if (v > %d) g%d(v); else h(%d);\n' % (i, i % 5, i) for i in range(n)) + '} }\n'
+        if kind == 'local-variables':
+            return 'class W { void m() {\n' + ''.join('  int v%d = %d + 1;\n' % (i, i) for i in range(n)) + '} }\n'
         if kind == 'arguments':
             return 'class W { void m() { g(' + ', '.join('a%d' % i for i in range(n)) + '); } }\n'
         if kind == 'operator-chain':
@@ -699,7 +709,7 @@ def scaling(res, work, tier):
         return 'class W { /** ' + ''.join('\n * @param p%d text %d' % (i, i) for i in range(n)) + '\n */ void m() { } }\n'
     width = []
     base_n = 300 if tier == 'quick' else 500
-    for kind in ('declarators', 'field-declarators', 'statements', 'arguments', 'operator-chain', 'fields', 'long-initializer', 'methods', 'interfaces', 'javadoc-tags'):
+    for kind in ('declarators', 'field-declarators', 'statements', 'assert-statements', 'return-statements', 'jump-statements', 'if-statements', 'local-variables', 'arguments', 'operator-chain', 'fields', 'long-initializer', 'methods', 'interfaces', 'javadoc-tags'):
         ts = []
         for mult in (1, 3, 9):
             src = fam_src(kind, base_n * mult).encode()
